@@ -39,6 +39,13 @@ let parse_op s : int * ns_ev =
   | 'T', [sid; mid] -> (int_of_string sid, NsTick (zi mid))
   | 'P', [sid; tok] | 'P', [sid; tok; _] -> (int_of_string sid, NsSep (zi tok))
   | 'U', [sid] -> (int_of_string sid, NsUp)
+  (* M: a multicast request arrives, its response waits in the send queue: nothing observable,
+     nothing of the accounting changes (= cancel by a token nobody uses).
+     Y: that delayed response is sent and coap_session_connected() is called: for the
+     accounting this is the flush of an established session (the response itself, item Wm, is
+     not a message of the session's application) *)
+  | 'M', [sid] -> (int_of_string sid, NsSep (zi "-1"))
+  | 'Y', [sid] -> (int_of_string sid, NsUp)
   | 'F', [sid; r] -> (int_of_string sid, NsFail (zi r))
   | _ -> failwith ("ns op " ^ s)
 
@@ -86,7 +93,8 @@ let ns toks =
 let parse_items seen s : ns_out list =
   if s = "-" || s = "" then [] else
   List.filter_map (fun it ->
-    if it = "A" then Some NsAcc
+    if it = "Wm" then None
+    else if it = "A" then Some NsAcc
     else if it = "X" then Some NsRef
     else if it.[0] = 'T' then begin
       let con = it.[1] = 'c' in
